@@ -76,25 +76,35 @@ Print Assumptions C13_names_match_source.
 Theorem C13_document_matches_source_output_outside :
   forall st hdrs docfn excl follow base kind input_file,
     kind_distinct kind = true ->
-    PyWalkSource.document (PyWorld base kind None) docfn [] input_file (py_settings_of st hdrs excl follow)
+    PyWalkSource.document (PyWorld base kind None (fun _ => false)) docfn [] input_file (py_settings_of st hdrs excl follow)
     = Walk.document st hdrs docfn excl base kind.
 Proof. exact document_matches_source_output_outside. Qed.
 Print Assumptions C13_document_matches_source_output_outside.
 
 (* the same with the output directory anywhere: when it lies inside the input tree at position o it is
    pruned from the walk exactly like a directory the patterns exclude (repair of F29) *)
-Theorem C13_document_matches_source :
+Theorem C13_document_matches_source_no_links :
   forall st hdrs docfn excl follow base kind input_file o,
     kind_distinct kind = true -> out_consistent st o = true ->
-    PyWalkSource.document (PyWorld base kind o) docfn [] input_file (py_settings_of st hdrs excl follow)
+    PyWalkSource.document (PyWorld base kind o (fun _ => false)) docfn [] input_file (py_settings_of st hdrs excl follow)
     = Walk.document st hdrs docfn (excl_with_output excl o) base kind.
+Proof. exact document_matches_source_no_links. Qed.
+Print Assumptions C13_document_matches_source_no_links.
+
+(* ... and with symbolic links to directories in the tree (flagged by links): one that is not followed is
+   pruned like an excluded directory (repair of F30), a followed one is an ordinary directory *)
+Theorem C13_document_matches_source :
+  forall st hdrs docfn excl follow base kind input_file o links,
+    kind_distinct kind = true -> out_consistent st o = true ->
+    PyWalkSource.document (PyWorld base kind o links) docfn [] input_file (py_settings_of st hdrs excl follow)
+    = Walk.document st hdrs docfn (excl_with_output_links excl o follow links) base kind.
 Proof. exact document_matches_source. Qed.
 Print Assumptions C13_document_matches_source.
 
 Theorem C13_document_single_file_matches_source :
-  forall st hdrs docfn excl follow base top o log rel ch name content sl,
+  forall st hdrs docfn excl follow base top o links log rel ch name content sl,
     dir_at top rel = Some ch -> find_file name ch = Some content ->
-    PyWalkSource.document_single_file (PyWorld base (KDir top) o) docfn log
+    PyWalkSource.document_single_file (PyWorld base (KDir top) o links) docfn log
       (APath AInput (rel ++ [name]) false) (APath AInput [] sl) (py_settings_of st hdrs excl follow)
     = emits log (doc_actions st docfn (ws_prefix st) (rel_string (rel ++ [name])) rel name content).
 Proof. exact document_single_file_matches_source. Qed.
